@@ -146,9 +146,9 @@ theorem expectG_kv (off : Nat) (lp : List Nat) (gws : Layout) :
   | nil => rfl
   | cons gw gws ih => obtain ⟨g, w⟩ := gw; simp [expectG, ih, mkToken]
 
-/-- every expected token's range ends `value.len()` columns behind its start, on the same line -/
+/-- every expected token's range ends `value.chars().count()` columns behind its start, on the same line -/
 theorem expectG_stop (off : Nat) (lp : List Nat) (gws : Layout) :
-    ∀ t ∈ expectG off lp gws, t.stop = ⟨t.start.line, t.start.col + utf8Len t.value⟩ := by
+    ∀ t ∈ expectG off lp gws, t.stop = ⟨t.start.line, t.start.col + t.value.length⟩ := by
   induction gws generalizing off lp with
   | nil => simp [expectG]
   | cons gw gws ih =>
